@@ -1,5 +1,6 @@
 (* C07 - Request/response correlation.  Property theorems only; proofs live in Call/. *)
 From Ergo Require Import Common.Base Ids.Model Ids.Proofs Call.Model Call.Proofs.
+From Ergo Require NetFail.Model NetFail.Guard NetFail.GuardCases NetFail.GuardProofs.
 Local Open Scope Z_scope.
 
 (* For EVERY history (any interleaving of calls, replies from any process with any reference - in time, late,
@@ -89,3 +90,32 @@ Example C07_example :
   map (fun t => (fst (fst t), match snd t with OReply x => r_pay x | _ => -1 end)) (results (run h)) = [(2, -1); (1, 1002); (0, -1)] /\
   map (fun d => (r_pay (fst d), snd d)) (dropped (run h)) = [(1003, 2); (999001, 1); (100, 1)].
 Proof. split; [cbn; repeat constructor; cbn; intuition discriminate | vm_compute; split; reflexivity]. Qed.
+
+(* Remote calls across a restart of the peer.  A reply (SendResponse / SendResponseError) or a request (CallPID /
+   CallAlias) stamped with the creation of a PREVIOUS incarnation of the connected node is refused by the sending
+   connection with the incarnation error and not a single frame is written - so a late reply to a request of the
+   previous incarnation cannot reach the process that got the same numeric id (and may be waiting on a reference with
+   the same numeric id) after the restart.  The receiver stamps whatever arrives with its own creation, so this guard
+   is the only barrier (NetFail/Guard.v quotes the Go lines; the table is tied to the real connection on every run). *)
+Theorem C07_stale_incarnation : forall op i cr pc from fcr mcr live rnode rcr,
+  In op NetFail.GuardCases.call_ops -> NetFail.Guard.accepts op i = true ->
+  NetFail.Guard.ident_creation i = Some cr -> cr <> pc ->
+  NetFail.Guard.conn_op NetFail.Guard.conn_table op from fcr mcr i pc = (NetFail.Model.NErr NetFail.Model.e_incarnation, []) /\
+  NetFail.Guard.delivered live rnode rcr (snd (NetFail.Guard.conn_op NetFail.Guard.conn_table op from fcr mcr i pc)) = [].
+Proof.
+  intros op i cr pc from fcr mcr live rnode rcr Hop Ha Hc Hne.
+  assert (T : NetFail.Guard.takes_stamped op = true).
+  { cbn in Hop. destruct Hop as [<-|[<-|[<-|[<-|[]]]]]; reflexivity. }
+  split; [now apply NetFail.GuardProofs.guard_refuses_stale with (cr := cr)|].
+  now apply NetFail.GuardProofs.stale_reaches_nobody with (cr := cr).
+Qed.
+Print Assumptions C07_stale_incarnation.
+
+(* ... and the current incarnation is not refused (the table does not refuse everything) *)
+Theorem C07_current_incarnation_passes : forall op i pc from fcr mcr rnode,
+  NetFail.Guard.takes_stamped op = true -> NetFail.Guard.accepts op i = true -> NetFail.Guard.ident_creation i = Some pc ->
+  (match i with NetFail.Guard.IPid n _ _ | NetFail.Guard.IAlias n _ _ => n | NetFail.Guard.IName _ n | NetFail.Guard.IEvent _ n => n end) = rnode ->
+  exists w, NetFail.Guard.conn_op NetFail.Guard.conn_table op from fcr mcr i pc = (NetFail.Model.NOk, [w]) /\
+            NetFail.Guard.resolve rnode pc (NetFail.Guard.w_to w) = i.
+Proof. exact NetFail.GuardProofs.guard_passes_current. Qed.
+Print Assumptions C07_current_incarnation_passes.
